@@ -1,6 +1,7 @@
 package vm
 
 import (
+	"reflect"
 	"runtime"
 	"unsafe"
 )
@@ -136,12 +137,23 @@ func (s *Sched) recvReady(cs *chanState, self *G) bool {
 // --- performing ------------------------------------------------------------
 
 // doSend is executed by the scheduled goroutine g.
+// rendezvousHash gives sender, receiver and channel the same new hashes no
+// matter which side was scheduled to perform the hand-over.
+func rendezvousHash(cs *chanState, sender, receiver *G, passiveSel int) {
+	n := mix(mix(mix(cs.h, sender.h), receiver.h), 0x5e)
+	cs.h = n
+	sender.h = mix(n, 1)
+	receiver.h = mix(n, 2)
+}
+
 func (s *Sched) doSend(cs *chanState, v any) {
 	g := s.cur
 	if cs.closed {
 		panic("send on closed channel")
 	}
-	Touch(&cs.h, 1)
+	if cs.cap != 0 {
+		Touch(&cs.h, 1)
+	}
 	{
 		// cap 0: hand over directly to a parked receiver
 		if cs.cap == 0 {
@@ -152,16 +164,15 @@ func (s *Sched) doSend(cs *chanState, v any) {
 			k := 0
 			if len(gs) > 1 {
 				k = s.choose(len(gs), 0, 'c')
-				if s.ended {
+				if k < 0 {
 					<-g.wake
 					runtime.Goexit()
 				}
-				TouchVal(uint64(k) + 0xA0)
 			}
 			p := gs[k]
 			p.pend.completed = true
 			p.rval, p.rok, p.rsel = v, true, idx[k]
-			p.h = mix(p.h, cs.h)
+			rendezvousHash(cs, g, p, idx[k])
 			return
 		}
 	}
@@ -170,7 +181,9 @@ func (s *Sched) doSend(cs *chanState, v any) {
 
 func (s *Sched) doRecv(cs *chanState) (any, bool) {
 	g := s.cur
-	Touch(&cs.h, 2)
+	if cs.cap != 0 || cs.closed {
+		Touch(&cs.h, 2)
+	}
 	if len(cs.buf) > 0 {
 		v := cs.buf[0]
 		cs.buf = cs.buf[1:]
@@ -187,11 +200,10 @@ func (s *Sched) doRecv(cs *chanState) (any, bool) {
 	k := 0
 	if len(gs) > 1 {
 		k = s.choose(len(gs), 0, 'c')
-		if s.ended {
+		if k < 0 {
 			<-g.wake
 			runtime.Goexit()
 		}
-		TouchVal(uint64(k) + 0xB0)
 	}
 	p := gs[k]
 	var v any
@@ -202,7 +214,7 @@ func (s *Sched) doRecv(cs *chanState) (any, bool) {
 	}
 	p.pend.completed = true
 	p.rsel = idx[k]
-	p.h = mix(p.h, cs.h)
+	rendezvousHash(cs, p, g, idx[k])
 	return v, true
 }
 
@@ -284,15 +296,16 @@ func Close[T any](c chan<- T) {
 	cs.closed = true
 }
 
-// CloseBi closes a bidirectional channel (helper for generic inference).
-func Len[T any](c chan T) int {
+// Len is len(ch) for a channel of any direction.
+func Len(c any) int {
+	rv := reflect.ValueOf(c)
 	if !S.active {
-		return len(c)
+		return rv.Len()
 	}
-	if c == nil {
+	if rv.IsNil() {
 		return 0
 	}
-	cs := stateOf(chanKey(c), c, cap(c))
+	cs := stateOf(rv.Pointer(), c, rv.Cap())
 	Touch(&cs.h, 4)
 	return len(cs.buf)
 }
@@ -340,7 +353,12 @@ type SendK[T any] struct {
 
 func (k *SendK[T]) selCase() SelCase { return SelCase{cs: csSend(k.c), dir: 1, sval: any(k.v)} }
 
-func RecvCase[T any](c <-chan T) *RecvK[T]      { return &RecvK[T]{c: c} }
+func RecvCase[T any](c <-chan T) *RecvK[T] { return &RecvK[T]{c: c} }
+
+// SendCaseFn(ch)(v): the element type is inferred from the channel alone.
+func SendCaseFn[T any](c chan<- T) func(T) *SendK[T] {
+	return func(v T) *SendK[T] { return &SendK[T]{c: c, v: v} }
+}
 func SendCase[T any](c chan<- T, v T) *SendK[T] { return &SendK[T]{c: c, v: v} }
 
 type recvSetter interface{ set(v any, ok bool) }
@@ -394,13 +412,12 @@ func Select(hasDefault bool, ks ...Case) int {
 	k := 0
 	if len(ready) > 1 {
 		k = s.choose(len(ready), 0, 'c')
-		if s.ended {
+		if k < 0 {
 			<-g.wake
 			runtime.Goexit()
 		}
 	}
 	i := ready[k]
-	TouchVal(uint64(i) + 0xD1)
 	c := o.cases[i]
 	if c.dir == 1 {
 		s.doSend(c.cs, c.sval)
